@@ -49,6 +49,13 @@ class _IntList(SigT):
     name = "IntList"
 
 
+class _StrList(SigT):
+    name = "StrList"
+
+
+StrList = _StrList()
+
+
 class Const(SigT):
     def __init__(self, value):
         self.value = value
